@@ -1,11 +1,14 @@
 #!/bin/bash
-# seedtest.sh <seed-id-or-dir> <prop> [tier] : apply a seeded change to /repo, run ./vcheck <prop>, restore /repo. Prints the verdict line.
+# seedtest.sh <seed-id-or-dir> <prop> [tier] : apply a seeded change to the repo under test, run ./vcheck <prop>, restore the repo. Prints the verdict line.
+# The repo is $VERIF_REPO (default /repo); the verif tree is the one this script lives in (so it also works inside a `vp run` snapshot).
 s=$1; prop=$2; tier=${3:-quick}
-if [ -d "$s" ]; then dir=$s; elif [ -d /verif/seeded/$s ]; then dir=/verif/seeded/$s; else dir=/tmp/wt/$s; fi
-cd /repo || exit 2
-if [ -n "$(git status --porcelain -- include)" ]; then echo "repo include dirty; abort"; exit 2; fi
-git apply $dir/patch.diff || { echo "patch does not apply"; exit 2; }
-cd /verif; cp -f evidence/$prop.json /verif/.scratch/evidence_$prop.keep 2>/dev/null; ./vcheck $prop $tier > /verif/.scratch/seedtest_$(basename $dir)_$prop.log 2>&1; rc=$?
-git -C /repo checkout -- include
-cp -f /verif/.scratch/evidence_$prop.keep /verif/evidence/$prop.json 2>/dev/null  # the committed evidence must come from the unchanged tree
-echo "seed=$(basename $dir) check=$prop tier=$tier exit=$rc  $(grep -c '^VIOLATION' /verif/.scratch/seedtest_$(basename $dir)_$prop.log) violation line(s): $(grep -A1 '^VIOLATION' /verif/.scratch/seedtest_$(basename $dir)_$prop.log | grep key= | head -3 | tr '\n' ' ')"
+V=$(cd "$(dirname "$0")/.." && pwd); R=${VERIF_REPO:-/repo}; mkdir -p $V/.scratch
+if [ -d "$s" ]; then dir=$(cd "$s" && pwd); elif [ -d $V/seeded/$s ]; then dir=$V/seeded/$s; else dir=/tmp/wt/$s; fi
+cd $R || exit 2
+if [ -n "$(git status --porcelain -- include 2>/dev/null)" ]; then echo "repo include dirty; abort"; exit 2; fi
+git apply $dir/patch.diff || { echo "seed=$(basename $dir) check=$prop patch does not apply"; exit 2; }
+cd $V; cp -f evidence/$prop.json $V/.scratch/evidence_$prop.keep 2>/dev/null; ./vcheck $prop $tier > $V/.scratch/seedtest_$(basename $dir)_$prop.log 2>&1; rc=$?
+( cd $R && git apply -R $dir/patch.diff ) || echo "RESTORE FAILED"
+cp -f $V/.scratch/evidence_$prop.keep $V/evidence/$prop.json 2>/dev/null  # the committed evidence must come from the unchanged tree
+log=$V/.scratch/seedtest_$(basename $dir)_$prop.log
+echo "seed=$(basename $dir) check=$prop tier=$tier exit=$rc viol-lines=$(grep -c '^VIOLATION' $log) first-keys: $(grep -A1 '^VIOLATION' $log | grep key= | head -2 | sed 's/^ *key=//' | cut -c1-110 | tr '\n' ' ')"
